@@ -396,9 +396,13 @@ def r3(R):
             if fn not in fns:
                 fns.append(fn)
         for fn in fns:
+            qual = m.qualname(fn)
+            try:
+                fn = m.ifunc(qual)          # module-level helpers that prepare the buffers are read in place
+            except Exception:
+                pass
             bi = BufInterp(fn, rel)
             bi.run_block(fn.body, {})
-            qual = m.qualname(fn)
             seen = {}
             for c, dv, lv, lab, loops in bi.obs:
                 seen[id(c)] = (c, dv, lv, lab, loops)   # last fixpoint round wins (most joined state)
